@@ -165,6 +165,12 @@ Definition propfail_C02 (cs : list scan_case) : list nat :=
   indices_where (fun c => negb (forallb (fun g => match find_group (sc_snap c) (og_name g) with
                                                  | Some gi => check_C02_group (mk_ctx (sc_snap c) gi) (og_calls g) (og_state g)
                                                  | None => false end) (sc_obs c))) cs 0.
+(* C18, controller side: the lock (and the cloud journal) after an increase that succeeded or failed at any step *)
+Definition mismatches_C18S := mismG all_groups st_lock false pi_decision.
+Definition propfail_C18S (cs : list scan_case) : list nat :=
+  indices_where (fun c => negb (forallb (fun g => match find_group (sc_snap c) (og_name g) with
+                                                 | Some gi => check_C18_group (mk_ctx (sc_snap c) gi) (og_calls g) (og_state g)
+                                                 | None => false end) (sc_obs c))) cs 0.
 Definition mismatches_C20 := mismG all_groups st_lock false pi_none.
 (* C20 on an observed scan: no panic (4); the main loop, started on a world whose first run returns an error, returned it and
    did not tick on (5); a scan that returned nil processed every configured group *)
